@@ -28,3 +28,4 @@ import MicroHttp.Props.C04Limit
 #print axioms MicroHttp.C04.setLimit_only_limit
 #print axioms MicroHttp.C04.read_after_setLimit
 #print axioms MicroHttp.Tables.no_shared_state
+#print axioms MicroHttp.Tables.no_interior_mutability
